@@ -471,6 +471,12 @@ def run(ctx):
                 else:
                     ck.bad('C02-D4', f.qual, norm_text(c)[:80], 'a protocol session is started from a function that is not known to be guarded by a filter verdict', f.loc(c))
 
+    # ------------------------------------------------------------------ D6
+    from .common import child_record_rules
+    ck.rule('C02-D6', 'link records carry the depth / inline depth / parent / root the filters rely on: add_child_url and '
+                      'child_url_record compute them from the parent record in the documented way and agree with each other')
+    child_record_rules(ctx, 'C02-D6')
+
     # ------------------------------------------------------------------ D5
     TASK = 'wpull.application.tasks.rule'
     bf = repo.func(TASK + ':URLFiltersSetupTask._build_url_filters')
